@@ -401,6 +401,26 @@ func init() {
 		mgr.Unlock()
 		return "ok"
 	})
+	// pipe pinwait p=<i> <seconds>: that much time passes for the dialog / transaction bindings of the proxy (the stored
+	// instants are moved into the past while the loop is idle)
+	vReg("pipe pinwait", func(a []string) string {
+		if vW == nil {
+			return "not-run"
+		}
+		m := kv(a)
+		i, _ := strconv.Atoi(m["p"])
+		secs, _ := strconv.ParseInt(a[len(a)-1], 10, 64)
+		p := vW.proxies[i]
+		if !vW.barrier(p) {
+			return "stalled"
+		}
+		d := time.Duration(secs) * time.Second
+		p.dialogBasedBackends.nextCleanTime = p.dialogBasedBackends.nextCleanTime.Add(-d)
+		for _, e := range p.dialogBasedBackends.backends {
+			e.expire = e.expire.Add(-d)
+		}
+		return "ok"
+	})
 	// pipe bfail p=<i> <0|1> <addr>: the backend double at <addr> starts / stops failing its sends (a TCP backend that is
 	// down, a UDP backend whose socket was closed)
 	vReg("pipe bfail", func(a []string) string {
@@ -596,6 +616,9 @@ func init() {
 		}
 		var pins []string
 		for k, e := range p.dialogBasedBackends.backends {
+			if !e.expire.After(time.Now()) {
+				continue // not honoured any more (deleted lazily)
+			}
 			ref := "RR"
 			if _, ok := e.backend.(*RoundRobinBackend); !ok {
 				ref = hx(e.backend.GetAddress())
